@@ -170,7 +170,8 @@ def conclude(pid, P, tier, seed, results, wall):
     ev = {'property_id': pid, 'tier': tier, 'seed': seed, 'level': 'proof',
           'coverage': coverage, 'assumptions': assumptions, 'wall_s': round(wall, 2),
           'violations': len(violations)}
-    with open(os.path.join(VERIF, 'evidence', '%s.json' % pid), 'w') as f:
+    if not os.environ.get("VERIF_NO_EVIDENCE"):
+     with open(os.path.join(VERIF, "evidence", "%s.json" % pid), "w") as f:
         json.dump(ev, f, indent=1, default=str)
     for ln in lines:
         print(ln)
